@@ -507,10 +507,14 @@ class HashRule(ABC):
             symbol_part += "."
             part_i = parts[i]
             symbol_part += part_i
-            ref_to_resolve = ref
 
-            def resolver():
-                return getattr(ref_to_resolve, part_i)
+            def resolver(path=tuple(parts[0 : i + 1])):
+                # Walk the dotted name from the global table each time, so that re-binding
+                # any part of it (a module alias, a class) is seen
+                obj = global_table.get(path[0])
+                for attr in path[1:]:
+                    obj = getattr(obj, attr, None)
+                return obj
 
             ref = resolver()
             rule = resolve_symbol(parent_symbol, symbol_part, resolver, ref)
